@@ -55,8 +55,9 @@ CLAIM = dict(
     "correspondence is an emitter self-check; dispatch_total is the statement. Thorough enumerates every thin size 2..40. Round 4 batch 3: the cyclic-grid and thin-grid runs cycle through documented solver option variants (bregman_update at various iterations, "
     "bregman_homogeneous, Anderson acceleration, full / flux_reduced formulation; iterative linear back-ends are C08's and excluded); the "
     "RAVIART_THOMAS rule is compared with an independent Gauss-Legendre tensor rule and the closed forms use independent rules for all three "
-    "modes; EMD is also run on space-time images (per-slice results and per-slice signatures). Not covered: convergence of Newton/Bregman to the minimum (C04/C08 own the solver internals; flagged-converged runs are only "
-    "required to lie within 25 % above the scipy minimum of their own functional - measured 4 % Newton, 11 % Bregman); mass-only scaling is "
+    "modes; EMD is also run on space-time images (per-slice results and per-slice signatures). Not covered: convergence of Newton/Bregman to the minimum (C04/C08 own the solver internals; how far a flagged-converged run lies "
+    "above the scipy minimum of its own functional is recorded in the evidence as an observation - up to 26 % seen - and NOT enforced: the property "
+    "only says never smaller); mass-only scaling is "
     "enforced for Newton (1e-5) and on thin grids, for Bregman it is a BOUNDED known finding (unconverged <= 100 %, flagged-converged <= 15 %, "
     "measured 66 % / 4.7 %); min_symm/min_smul/min_weight_smul are conditional on a given minimum of a rational-valued seminorm cost; "
     "dispatch_total covers nine tabulated spellings; EMD.__call__ internals (normalisation, float32 signatures, cv2.EMD) are not modelled, "
@@ -82,12 +83,14 @@ METHODS = {"newton": "newton", "bregman": "bregman", "cv2emd": "cv2.emd", "newto
 TOL_EXACT = 1e-9   # swap, power-of-two scaling, identical: the iterations are equivariant up to rounding (observed <= 2e-15)
 TOL_GEN = 1e-7     # generic scaling factors: input rounding 1e-16 amplified through <= 200 iterations (observed <= 2e-15)
 TOL_MASSONLY_NEWTON = 1e-5  # masses scaled, absolute clamp eps NOT scaled: unconverged Newton/SUBCELL runs on compact data deviate by 1e-7
-CONVERGED_OVER_MIN = 0.25   # flagged-converged runs vs scipy minimum of the same functional: measured <= 0.10 (Bregman), <= 0.03 (Newton)
 BREGMAN_FIXED_L_BOUND = {False: 1.0, True: 0.15}  # measured: unconverged <= 0.66, flagged-converged (tolerances 1e-6..1e-8) <= 0.047
 ANDERSON_SLACK = 30.0  # was 1e3 before fix fdff869; the mixture of earlier iterates inherits the conditioning-limited accuracy of their
 # direct solves on degenerate-mobility inputs (measured 2.7e-9 on the 1-D 'centre-zero' input, i.e. 2.7 x the plain tolerance)
 TOL_GEN_BREGMAN = 1e-4  # the shrink step thresholds (max(.,0)): under a non-power-of-two factor rounding can flip a face in / out of the
 # active set of an unconverged iterate (measured 3e-6 on 4x5 after 200 iterations); power-of-two factors stay at 1e-9
+EXTREME_TOL_DIRECT = 1e-6     # 8 unconverged Newton iterations at masses x 2^30: measured 7.7e-9 on 12x12 (rounding, different pivoting)
+EXTREME_TOL_ITERATIVE = 1e-4  # amg / cg with default (relative 1e-6) linear tolerances: distance reproduced to 6 digits at small scales (measured)
+EXTREME_LARGE_BOUND = 0.05    # known: at masses x 2^20 .. 2^30 amg / cg Newton distances deviate by up to 1.5 % (measured), see findings
 TOL_TIE = 1e-9     # returned distance vs independently recomputed cost of the returned flux
 TOL_FEAS = 1e-8    # mass conservation of the returned flux relative to max|rhs| (direct linear solves; observed <= 1e-13)
 
@@ -279,6 +282,7 @@ def run_case(cfg):
     method, l1, mob, ni = cfg["method"], cfg["l1"], cfg["mob"], cfg["num_iter"]
     thin = sum(1 for s in shape if s > 1) <= 1
     fails, stats, n = [], {}, 0
+    degenerate = False
     base_rp = {k: cfg[k] for k in ("shape", "hs", "m1", "m2", "method", "l1", "mob", "num_iter")}
 
     def fail(sig, what, **kw):
@@ -305,6 +309,8 @@ def run_case(cfg):
     # (i) the returned distance is the cost of a mass-conserving flux
     try:
         U_axes = recover_flux(info["flux"], shape)
+        allU = np.concatenate([np.ravel(u) for u in U_axes]) if U_axes else np.zeros(0)
+        degenerate = bool(allU.size and np.any(np.abs(allU) <= 1e-9 * max(float(np.max(np.abs(allU))), 1e-300)))
         rhs = (m2 - m1) * float(np.prod(hs))
         res = float(np.max(np.abs(divergence(U_axes, shape, hs) - rhs))) / max(float(np.max(np.abs(rhs))), 1e-300)
         stats["max_feas_residual"] = res
@@ -361,6 +367,14 @@ def run_case(cfg):
             fail(f"C05:scale:raises:{method}", f"{cls}: scaled pair raises {rr}")
             continue
         e = abs(float(rr[0]) / s - dist) / max(dist, scale)
+        if degenerate:
+            # a face flux of the iterate vanishes (compact / dyadic data): mobility weights 1/regularization, condition ~1e16; the two
+            # runs pivot differently and agree only to the conditioning (same input class as the thin degenerate-mobility finding)
+            stats[f"max_scale_{tag}_degenerate_err"] = e
+            if e > tol:
+                fail(f"C05:scale:degenerate-mobility:{method}:dev<=0.1%" if e <= 1e-3 else f"C05:scale:degenerate-mobility:{method}:dev>0.1%",
+                     f"{cls} grid {shape}: iterate with a vanishing face flux: d(s m1, s m2)/s = {float(rr[0]) / s!r} for s={s!r} but d(m1,m2)={dist!r} (relative {e:.3g})", distance=dist, s=s)
+            continue
         stats[f"max_scale_{tag}_err"] = e
         if e > tol:
             fail(f"C05:scale:{tag}:{method}", f"{cls} grid {shape}: d(s m1, s m2)/s = {float(rr[0]) / s!r} for s={s!r} but d(m1,m2)={dist!r}", distance=dist, s=s, scaled=float(rr[0]))
@@ -1130,9 +1144,7 @@ def bf_case(cfg):
         if conv and ub:
             out.setdefault("over_ub", {}).setdefault(method, 0.0)
             out["over_ub"][method] = max(out["over_ub"][method], (dist - ub) / ub)
-            if dist > ub * (1 + CONVERGED_OVER_MIN):
-                out["fails"].append((f"C05:converged-far-above-minimum:{method}", f"{method}:{mob}:{l1} grid {shape}: run flagged converged returns {dist!r}, more than "
-                                     f"{int(CONVERGED_OVER_MIN * 100)} % above the brute-force minimum {ub!r} of the same cost functional", {**rp, "distance": dist, "upper_bound_of_minimum": ub}))
+            # observation only: the property says 'never smaller than the minimum', not how far above a converged run may be
         bound, which = (lbc, "corner-rule dual") if (l1 == "CONSTANT_SUBCELL_PROJECTION" and lbc is not None and lbc > lbf) else (lbf, "midpoint dual")
         if dist < bound * (1 - 1e-9) - 1e-14:
             out["fails"].append((f"C05:below-certified-minimum:{method}", f"{method}:{mob}:{l1} grid {shape} ({ni} iterations, converged={r[1].get('converged')}): distance {dist!r} is below the "
@@ -1256,6 +1268,86 @@ def bruteforce(ctx):
         ctx.mark("TIE-BROKEN", {"correspondence": "dual-certificates", "request": first[0], "model": first[1], "expected": first[2], "n_diffs": bad})
 
 
+# ---------------------------------------------------------------------------------------------- homogeneity at extreme scales, default options
+
+
+def extreme_case(args):
+    """worker: one (grid, method, linear back-end) with the back-end's DEFAULT options (no tolerance given) at s = 1 and extreme s"""
+    import darsia as d
+
+    shape, hs, m1, m2, method, backend, exps = args
+    m1, m2 = np.array(m1), np.array(m2)
+    dims = [sh * h for sh, h in zip(shape, hs)]
+    out = {}
+    for e in [0] + list(exps):
+        sc = 2.0 ** e
+        r = solve(d, sc * m1, sc * m2, dims, method, {"linear_solver": backend, "return_info": True, "num_iter": 8})
+        if isinstance(r, Raised):
+            out[e] = ("raised", repr(r), str(r.exc)[:100])
+        else:
+            out[e] = ("ok", float(r[0]), bool(r[1].get("converged")))
+    return out
+
+
+def extreme_scale_oracle(ctx, d):
+    """the scaling clause at extreme magnitudes (2^-30 .. 2^30) for every linear back-end with its default options: the distance
+    must be s * W1 (never 0 / non-finite for distinct distributions) and respect the first-moment bound at that scale"""
+    rng = ctx.rng
+    grids = [(3, 3), (6, 5)] + ([(8, 10), (12, 12), (5, 5, 5), (6, 1)] if ctx.big else [])
+    exps = [-26, -20, 20] + ([-30, 30] if ctx.big else [])
+    jobs = []
+    for shape in grids:
+        hs = [rng.choice((0.25, 0.5, 1.0, 2.0)) for _ in shape]
+        m1, m2 = gen_pair(rng, shape, "positive")
+        for method in ("newton", "bregman"):
+            for backend in ("direct", "amg", "cg"):
+                jobs.append((list(shape), hs, m1.tolist(), m2.tolist(), method, backend, exps))
+    with mp.get_context("fork").Pool(min(16, max(2, mp.cpu_count()))) as pool:
+        res = pool.map(extreme_case, jobs, chunksize=1)
+    worst = {}
+    for (shape, hs, m1, m2, method, backend, _), out in zip(jobs, res):
+        rp = {"shape": shape, "hs": hs, "m1": m1, "m2": m2, "method": method, "linear_solver": backend, "options": "defaults"}
+        fm = first_moment(np.array(m1), np.array(m2), hs)
+        base = out[0]
+        ctx.count(("extreme", tuple(shape), method, backend), n=len(out))
+        if base[0] != "ok":
+            ctx.fail(f"C05:extreme-scale:raises:{backend}:{method}", f"grid {tuple(shape)} default options: {base[1]} {base[2]}", rp)
+            continue
+        d1 = base[1]
+        for e, v in out.items():
+            if e == 0:
+                continue
+            sc = 2.0 ** e
+            if v[0] != "ok":
+                ctx.fail(f"C05:extreme-scale:raises:{backend}:{method}", f"grid {tuple(shape)} masses x 2^{e}, default options: {v[1]} {v[2]}", {**rp, "exponent": e})
+                continue
+            dist = v[1]
+            if not np.isfinite(dist) or (dist == 0.0 and d1 != 0.0):
+                ctx.fail(f"C05:extreme-scale:zero-or-nonfinite:{backend}:{method}", f"grid {tuple(shape)}, linear_solver={backend} (default options), masses x 2^{e}: distance {dist!r} "
+                         f"although the distributions differ (distance at scale 1: {d1!r})", {**rp, "exponent": e, "distance": dist})
+                continue
+            dev = abs(dist / sc - d1) / max(d1, 1e-300)
+            key = f"{method}:{backend}:{'small' if e < 0 else 'large'}"
+            worst[key] = max(worst.get(key, 0.0), dev)
+            if dist < sc * fm * (1 - 1e-5):
+                ctx.fail(f"C05:extreme-scale:first-moment-bound:{backend}:{method}", f"grid {tuple(shape)} masses x 2^{e}: distance {dist!r} < first-moment displacement {sc * fm!r}", {**rp, "exponent": e})
+            if method == "bregman":
+                # default L = 1 is a dimensional parameter: bounded known class (see BREGMAN_FIXED_L_BOUND)
+                if dev > TOL_GEN:
+                    ctx.fail(bregman_scale_signature(dev, v[2] and base[2]), f"grid {tuple(shape)} bregman/{backend} default options, masses x 2^{e}: d/s = {dist / sc!r} vs {d1!r} "
+                             f"(relative deviation {dev:.3g})", {**rp, "exponent": e})
+                continue
+            tol = EXTREME_TOL_DIRECT if backend == "direct" else EXTREME_TOL_ITERATIVE
+            if dev > tol:
+                if backend != "direct" and e > 0 and dev <= EXTREME_LARGE_BOUND:
+                    sig = f"C05:extreme-scale:newton:{backend}:large-scale:dev<=5%"
+                else:
+                    sig = f"C05:extreme-scale:newton:{backend}:{'small' if e < 0 else 'large'}-scale"
+                ctx.fail(sig, f"grid {tuple(shape)} newton, linear_solver={backend} with its default options, masses x 2^{e}: d/s = {dist / sc!r} but the distance at scale 1 is {d1!r} "
+                         f"(relative deviation {dev:.3g})", {**rp, "exponent": e, "distance": dist})
+    ctx.cov["extreme_scale_max_relative_deviation(method:backend:small|large)"] = worst
+
+
 def make_cases(ctx):
     rng = ctx.rng
     cases = []
@@ -1321,6 +1413,7 @@ def run(ctx):
             ctx.fail(f"C05:dispatch:{k}", f"wasserstein_distance(method={METHODS[k]!r}) reaches {t[k]!r}, documented back-end is {want}", {"method": METHODS[k]})
 
     rule_facts_oracle(ctx, d)
+    extreme_scale_oracle(ctx, d)
     corner_rule_tie(ctx, d)
     thin_correspondence(ctx, d)
     bruteforce(ctx)
